@@ -156,18 +156,70 @@ impl St {
 }
 
 static mut ST: St = St::new();
+static mut ST2: St = St::new();
+static mut CUR: bool = false;
 
-/// The one executor state. Single task: no aliasing across calls.
+/// The executor state of the run currently selected (see `select`). Single
+/// task: no aliasing across calls.
 #[allow(clippy::mut_from_ref)]
 pub fn st() -> &'static mut St {
     // SAFETY: single-threaded harness; references are not held across calls
     // that re-enter `st()` mutably in a conflicting way.
-    unsafe { &mut *core::ptr::addr_of_mut!(ST) }
+    unsafe {
+        if CUR {
+            &mut *core::ptr::addr_of_mut!(ST2)
+        } else {
+            &mut *core::ptr::addr_of_mut!(ST)
+        }
+    }
+}
+
+/// Selects which of the two run traces `st()` refers to (harnesses with two runs).
+pub fn select(second: bool) {
+    unsafe { CUR = second }
 }
 
 pub fn reset() {
+    select(true);
+    *st() = St::new();
+    select(false);
     *st() = St::new();
     clear_woken();
+}
+
+/// Starts a new run on the same graph: the trace is cleared, what is known
+/// about the graph (edges, paths, conflicts, order) is kept.
+pub fn reset_trace() {
+    let s = st();
+    s.clock = 0;
+    s.start = [0; N];
+    s.end = [0; N];
+    s.starts = [0; N];
+    s.released = [false; N];
+    s.fail = [false; N];
+    s.waiting = [false; N];
+    s.order = [0; N];
+    s.order_len = 0;
+    s.polls = 0;
+    s.sig = 0;
+    s.max_in_flight = 0;
+}
+
+/// Copies what is known about the graph from the first run state to the second.
+pub fn copy_graph_to_second() {
+    select(false);
+    let (n, rev, edge, path, conflict) = {
+        let s = st();
+        (s.n, s.rev, s.edge, s.path, s.conflict)
+    };
+    select(true);
+    let s = st();
+    s.n = n;
+    s.rev = rev;
+    s.edge = edge;
+    s.path = path;
+    s.conflict = conflict;
+    select(false);
 }
 
 /// Clears the wake-up flag (before each poll).
